@@ -17,8 +17,8 @@ META = {
     "rule": "state = (R6 model, normalised node/edge indexes) reached by an edit history on a real CircuitDAG; transition = one edit "
             "(add / insert_at every edge or compatible edge pair / remove every node / replace / unwrap / group / remove_identity / add register); "
             "non-trivial = the edit changed the circuit; distinct = distinct (state key, event)",
-    "bounds": {"quick": "all histories of depth <= 3 from layouts (0,0,0),(1,1,1),(2,1,1) over the full event menu with merging of equal states",
-               "thorough": "depth 4; depth <= 3 repeated without any merging (verdicts must agree)"},
+    "bounds": {"quick": "all histories of depth <= 4 from layouts (0,0,0),(1,1,1) and depth <= 3 from (2,1,1) over the full event menu with merging of equal states",
+               "thorough": "depth 5 (4 from (2,1,1)... all layouts depth >= 4); depth <= 3 repeated without any merging (verdicts must agree)"},
     "assumptions": ["states with equal R6 model and equal (normalised) node_dict/edge_dict contents have the same futures w.r.t. the invariants "
                     "(thorough re-runs depth<=3 without merging to test this)",
                     "classical wires are only required not to break the DAG/source/sink conditions (insert_at does not thread them)"],
@@ -34,7 +34,7 @@ def letters_for(model):
     if npn:
         out += [["1", "I", "p", 0], ["W", ["X", "I"], "p", 0], ["MZ", "p", 0, 0]]
     if ne and npn:
-        out += [["CNOT", "e", 0, "p", 0], ["MCR", "e", 0, "p", 0, 0], ["CCNOT", "e", 0, "p", 0, 0]]
+        out += [["CNOT", "e", 0, "p", 0], ["MCR", "e", 0, "p", 0, 0], ["CCNOT", "e", 0, "p", 0, 0], ["CNOT", "p", 0, "e", 0]]
     if ne >= 2:
         out += [["CNOT", "e", 0, "e", 1], ["CNOT", "e", 1, "e", 0], ["1", "P", "e", 1]]
     if ne >= 2 and npn:
@@ -213,7 +213,8 @@ def check_invariants(circ, m):
         elif isinstance(op, ops.Output):
             keys = ["Output"]
         else:
-            keys = list(op.labels) + [type(op).__name__, op.parse_q_reg_types()]
+            # the register-type key is derived here, not through graphiq's own helper
+            keys = list(op.labels) + [type(op).__name__, "-".join({"e": "Emitter", "p": "Photonic"}[t] for t in op.q_registers_type)]
         for k in keys:
             want_nd.setdefault(k, []).append(n)
     for k, lst in circ.node_dict.items():
@@ -360,6 +361,8 @@ MERGE = True
 
 def expand(blob, tier, acc):
     layout, hist = blob
+    if tier == "quick" and tuple(layout) == (2, 1, 1) and len(hist) >= 3:
+        return []  # quick: depth 3 from the widest layout (its event menu is the largest), depth 4 from the others
     circ0, m0 = build(layout, list(hist))
     res = []
     for ev in events(circ0, m0):
@@ -369,6 +372,14 @@ def expand(blob, tier, acc):
         site = ev[0]
         circ = circ0.copy()
         m = m0.copy()
+        # query the object before editing it (anything it memoises must be invalidated by the edit)
+        try:
+            circ.sequence()
+            circ.sequence(unwrapped=True)
+            circ.depth
+            circ.register_depth
+        except Exception:
+            pass
         fp0 = fingerprint(circ)
         # two-register insertions: ask the circuit whether the pair is compatible
         if ev[0] == "insert" and len(ev[2]) == 2:
